@@ -113,6 +113,11 @@ impl PaddingFactory {
                 }
 
                 let (min_val, max_val) = (min_val.min(max_val), min_val.max(max_val));
+                // Sizes are handed out as i32: saturate instead of wrapping negative.
+                let (min_val, max_val) = (
+                    min_val.min(i32::MAX as i64),
+                    max_val.min(i32::MAX as i64),
+                );
 
                 if min_val == max_val {
                     sizes.push(min_val as i32);
